@@ -316,7 +316,13 @@ func runC02(c *eng.Ctx) {
 		var hist []porcupine.Operation
 		var hmu sync.Mutex
 		if r.Built {
-			sc := r.Do(core.Op{Kind: core.OpCreate, Scope: 0, CtxKind: 1}).NewScope
+			// every fourth round: the goroutines are spread over three sibling scopes, so the same
+			// constructors run concurrently in DIFFERENT scopes (nothing may leak across)
+			scopes := []int{r.Do(core.Op{Kind: core.OpCreate, Scope: 0, CtxKind: 1}).NewScope}
+			if k%4 == 1 {
+				scopes = append(scopes, r.Do(core.Op{Kind: core.OpCreate, Scope: 0, CtxKind: 1}).NewScope, r.Do(core.Op{Kind: core.OpCreate, Scope: scopes[0], CtxKind: 0}).NewScope)
+				c.R.Count("window_rounds_across_scopes", 1)
+			}
 			g := []int{2, 4, 8, 16}[rng.Intn(4)]
 			start := make(chan struct{})
 			var wg sync.WaitGroup
@@ -324,6 +330,7 @@ func runC02(c *eng.Ctx) {
 				ops := make([]core.Op, len(f.probe))
 				copy(ops, f.probe)
 				rng.Shuffle(len(ops), func(i, j int) { ops[i], ops[j] = ops[j], ops[i] })
+				sc := scopes[gi%len(scopes)]
 				wg.Add(1)
 				go func(gi int, ops []core.Op) {
 					defer wg.Done()
@@ -331,6 +338,9 @@ func runC02(c *eng.Ctx) {
 					for _, op := range ops {
 						op.Scope = sc
 						res := r.Do(op)
+						if res.Class == "ok" && (res.IsNil || (op.Kind == core.OpGet && (len(res.Insts) != 1 || res.Insts[0] == nil))) {
+							c.R.Violation(eng.Violation{Prop: "C02", Clause: "nil-result-without-error", Sig: "C02/nil-result-without-error:" + f.name, Case: idx, CaseID: f.name, Detail: fmt.Sprintf("%s returned no instance and no error while other goroutines were constructing the same scoped service", op.String())})
+						}
 						if op.Kind == core.OpGet {
 							var id int64
 							if res.Class == "ok" && len(res.Insts) == 1 && res.Insts[0] != nil {
